@@ -173,6 +173,7 @@ func runC04(c *eng.Ctx) {
 				c.R.Count("universe_probes", int64(len(ProbeTypes)*(len(ProbeKeys)+len(ProbeGroups))))
 			} else {
 				ProbeRegistered(r, sc.NewScope)
+				ProbeForeignKeys(r, sc.NewScope)
 			}
 			r.Finish()
 		}
